@@ -1202,7 +1202,7 @@ pub fn run(ctx: &Ctx, rep: &mut Report, replay: Option<&serde_json::Value>) {
     rep.rule("(a) valid encodings of generated records (point header, manifest, object sequences, whole stored-point files, status, RRDP state) and RRDP archive files built with the real writer (1/2/4/1024 buckets, state + up to 6 objects, deletions leaving free blocks) under one mutation each: truncation, bit flip in a structural field or anywhere, length/count fields set to {0,1,len-1,len+1,rest+1,64Ki,limit,limit+1,2^31,2^32-1,2^32,2^40,2^62,2^63,2^64-2,2^64-1}, archive pointer/size/flag fields set to {0,1,2,self,other block,first block,inside index,EOF-1,EOF,EOF+1,2^31,2^63,2^64-1}, splices; (b) exhaustive sweeps over fixed bases: every truncation, every bit of every structural field, every length value for every length field; (c) arbitrary byte strings per decoder; (d) the seed corpus of the fuzz targets; each case runs in a worker process with panics caught, a cap on single allocations of max(16 MiB, 64 x input) and a CPU budget; non-trivial = the decoder got past at least one field (archives: past the magic) and then reported an error, or decoded a mutated input; distinct by serialised case");
     rep.assume("a single allocation request above max(16 MiB, 64 x input length) counts as 'far beyond the file's size' (DESIGN §1 C27); constant-size allocations below that (the decoder's 65536-entry map pre-allocation, about 5.4 MB) are reported in largest_single_allocation_seen_per_decoder but not judged");
     rep.assume("more than 2 s of CPU time on an input of a few KiB counts as not terminating; a wall-clock timeout alone is dropped as inconclusive");
-    rep.assume("the whole-engine leg (corrupt files in a real cache directory during a validation run) is not part of this check yet; decoder level and RrdpArchive::{verify,open,load_state,load_object,objects} only");
+    rep.assume("the whole-engine leg (module c27e) covers caches written through the rsync transport (stored points, status file, trust anchors); RRDP archives are covered at the RrdpArchive level only");
     let scratch = ctx.scratch();
     let dir = scratch.path().to_path_buf();
     if std::env::var("RV_WRITE_CORPUS").is_ok() {
@@ -1260,6 +1260,7 @@ pub fn run(ctx: &Ctx, rep: &mut Report, replay: Option<&serde_json::Value>) {
             "bytes" => run_case(ctx, rep, sub, &serde_json::from_value::<RawCase>(t.case).expect("case"), raw_case),
             "archive" | "sweep-archive" => run_case(ctx, rep, sub, &serde_json::from_value::<ArchCase>(t.case).expect("case"), arch_case),
             "known" => run_case(ctx, rep, sub, &serde_json::from_value::<KnownCase>(t.case).expect("case"), known_case),
+            "engine" => crate::c27e::run(ctx, rep, replay),
             "corpus:archive_file" | "archive-bytes" | "fuzz:archive_file" => run_case(ctx, rep, sub, &serde_json::from_value::<Hex>(t.case).expect("case"), arch_bytes),
             other if other.starts_with("fuzz:dec_") || other.starts_with("corpus:dec_") => {
                 let name = other.rsplit("dec_").next().unwrap_or("");
@@ -1377,6 +1378,9 @@ pub fn run(ctx: &Ctx, rep: &mut Report, replay: Option<&serde_json::Value>) {
     }
     crate::fz::replay_corpus(ctx, rep, "archive_file", |d, i| x.judge_archive(d, &probes, CALL_ALL, false, i));
     x.flush(rep);
+
+    // (e) whole-engine leg: corrupt files in a real cache directory, full validation run in a child
+    crate::c27e::run(ctx, rep, None);
 
     if ctx.tier == Tier::Thorough {
         for rec in Rec::ALL {
